@@ -198,6 +198,8 @@ func runInBubble(base string, p Profile, h Header, hooks Hooks, mk func(c *Clust
 	}()
 	journalReset()
 	journal(map[string]any{"profile": p.Name, "header": h})
+	hb, _ := json.Marshal(h)
+	c.rec.Add(Event{Kind: "header", Note: string(hb)})
 	if err := c.bootstrapAll(); err != nil {
 		panic(fmt.Sprintf("sim: bootstrap failed: %v", err))
 	}
